@@ -223,6 +223,15 @@ def _history_tree(d):
         x.name = h["edit"][2]
     elif kind == "move":
         x.parent = root
+    elif kind == "failmove":
+        # a move the library refuses (the destination already has a child of that name): nothing changes
+        y = root
+        for c in h["edit"][2][1:]:
+            y = next(k for k in y.children if k.node_name == c)
+        try:
+            x.parent = y
+        except bigtree.utils.exceptions.TreeError:
+            pass
     if h.get("peek"):
         for n in [root] + list(root.descendants):
             n.path_name, n.depth
@@ -619,7 +628,8 @@ def _rand_case(rng, fn, malformed=False):
             tree = top(hidden, 0.8)
             d.update(tree=tree, start=rng.choice([0, 0, rng.randrange(core.spec_size(tree))]))
     if fn in DF_FNS:
-        cols = rng.choice([[], ["v"], ["v", "w"], ["w", "f"], ["v", "name"], ["age", "w", "f"], ["g"], ["g", "v"]])
+        cols = rng.choice([[], ["v"], ["v", "w"], ["w", "f"], ["v", "name"], ["age", "w", "f"], ["g"], ["g", "v"],
+                          ["first name", "class"], ["2024", "v"]])
     elif fn in ("dict",):
         cols = rng.choice([[], ["v"], ["v", "w"], ["v", "name", "f"]])
     elif fn in ("adddict", "addpath"):
@@ -734,6 +744,20 @@ def _corpus():
         if fn in DF_FNS:
             d["pathpos"] = 0
         out.append(mk(d, ("corpus", "large", fn)))
+    # a WIDE node (70 children) whose child n7 the caller tried - and was refused - to move below a sibling that has an
+    # n7 of its own; then the tree is extended through a/n7 (existing nodes are reused, not duplicated)
+    wide = ["a", {}, [["n%d" % i, {}, []] for i in range(70)] + [["hub", {}, [["n7", {}, []]]]]]
+    for fn in ADD_FNS:
+        its = [[["a", "n7", "leaf"], False, False, ({"v": 1} if fn != "addpath" else {})],
+               [["a", "n7"], False, False, ({"w": "x"} if fn != "addpath" else {})],
+               [["a", "hub", "n7", "z"], False, False, {}]]
+        if fn == "addpath":
+            its = its[:1]
+        d = {"fn": fn, "sep": "/", "dup": True, "items": its, "tsep": "/", "start": 0, "tree": wide,
+             "hist": {"tree0": wide, "warm": ["a", "n7"], "edit": ["failmove", ["a", "n7"], ["a", "hub"]], "peek": True}}
+        if fn in DF_FNS:
+            d["pathpos"] = 0
+        out.append(mk(d, ("corpus", "wide-failmove", fn)))
     # suffix-related names deeper down
     t2 = ["a", {}, [["ab", {}, [["xa", {}, [["a b", {}, []]]]]], ["b", {}, [["ba", {}, []]]]]]
     for dup in (False, True):
